@@ -232,3 +232,5 @@ func (i *interpreter) callerIsRepo() bool {
 	}
 	return true
 }
+
+func isRuneStr(v value) bool { _, ok := v.(runeStr); return ok }
